@@ -300,6 +300,34 @@ theorem C18_sites_gated :
         r.conds.contains "!(t.dhtMode <= config.DhtNone)" = true) ∧
     (∀ r ∈ Gen.privacyGates, r.site = "infoHashes" → r.args = "false") := by decide
 
+/-! ## malformed proxy settings fail closed -/
+
+theorem C18_proxy_routes_table : Gen.proxyRoutes = expectedProxyRoutes := by decide
+
+/-- **Fail closed.**  Whatever the proxy setting is — well-formed or not — as long as it is not
+    the empty string, no site that connects without the proxy is reachable: every direct dial
+    (tor.DialClient, the UDP tracker) and the `return nil, nil` of the HTTP transport's Proxy
+    function is dominated by `proxy == ""` on the SETTING; no direct site depends on the result
+    of parsing it (such a site would be a row without that condition and refute this).  Every
+    HTTP client (trackers, web seeds, GetTorrent) is built with the torrent's proxy setting. -/
+theorem C18_proxy_fail_closed :
+    (∀ p : ProxySetting, p ≠ .empty → directReachable Gen.proxyRoutes p = false) ∧
+    (∀ r ∈ Gen.proxyRoutes, r.site = "httpclient.Get" →
+      (r.args = "\"\", proxy" ∨ r.args = "protocol, proxy")) ∧
+    directReachable Gen.proxyRoutes .empty = true := by
+  refine ⟨?_, by decide, by decide⟩
+  intro p hp
+  cases p
+  · exact absurd rfl hp
+  · decide
+  · decide
+
+-- what seeded C18-8 did (Proxy function chosen from the parse result): a direct site without
+-- the condition on the setting is reachable with a malformed proxy
+example : directReachable
+    [⟨"httpclient.Get", "Transport.Proxy", "not a function literal: proxyFunc", []⟩] .malformed = true := by
+  decide
+
 /-! ## histories: any interleaving of steps with the deliveries of what they decided -/
 
 theorem history_permitted_aux (g : Ports) (fx : Fixed) (hs : List HStep) :
